@@ -143,7 +143,7 @@ def gen_cases(ctx):
     cases = []
     for i in range(n):
         w = worlds.gen_world(rng, tests_per_layer=(0, 3), kinds=["pass", "pass", "fail", "error", "skipBody", "skipDeco"],
-                             p_fault=0.35, p_write=0.0)
+                             p_fault=0.35 if i % 4 != 1 else 0.15, p_write=0.0, nested=(i % 4 == 1))
         if i % 3 == 0:
             for l in w["layers"]:
                 if l["kind"] != "unit":
